@@ -339,7 +339,7 @@ def run(tier, only=None):
                 if only and only not in fn: continue
                 common = sorted(g for g in os.listdir(core.SRC) if re.fullmatch(r'vnacommon_(lu|mldivide|mrdivide|minverse|mmultiply)\.c', g))
                 ir = build_ir(ctx, [f] + common, fn)
-                for n in (((1, 2) if fn == 'vnaconv_stozn' else (1,)) if tier == 'quick' else ((1, 2, 3) if fn in ('vnaconv_stozn', 'vnaconv_ztosn') else (1, 2))):
+                for n in (((1, 2) if fn == 'vnaconv_stozn' else (1,)) if tier == 'quick' else ((1, 2) if fn in ('vnaconv_stozn', 'vnaconv_ztosn', 'vnaconv_ztoyn', 'vnaconv_ytozn', 'vnaconv_stozin') else (1,))):
                     njobs.append({'ir': ir, 'fn': fn, 'x': x, 'y': 'I' if rest == 'zin' else rest[0], 'kind': 'zin' if rest == 'zin' else 'nxn', 'n': n})
                 continue
             else: kind, y = '2x2', rest
@@ -373,7 +373,7 @@ def run(tier, only=None):
                            'functions_encoded': [r['fn'] for r in results], 'programs': len(results),
                            'bounds': 'all 72 two-port conversions and 9 two-port input-impedance functions, loop-free, every input matrix entry and reference impedance a free '
                                      'complex symbol (re z0 = k^2, k > 0); exact over the reals: silent about rounding, overflow, NaN',
-                           'outside': 'n-port functions for n >= 3 (quick: n = 1, and n = 2 for stozn; thorough: n <= 2, n = 3 for stozn/ztosn); for n-port functions with n >= 2 only the inclusion input-relation => output-relation is decided (equality of the two n-dimensional solution spaces then follows generically); floating-point rounding; behaviour on the singular set (denominators are assumed non-zero)',
+                           'outside': 'n-port functions for n >= 3 (quick: n = 1, and n = 2 for stozn; thorough: n = 2 also for ztosn, ztoyn, ytozn, stozin; measured: n = 3 and n = 2 of stoyn/ytosn/ztozin/ytozin give no z3 verdict within 3000 s); for n-port functions with n >= 2 only the inclusion input-relation => output-relation is decided (equality of the two n-dimensional solution spaces then follows generically); floating-point rounding; behaviour on the singular set (denominators are assumed non-zero)',
                            'solver_time_s': round(sum(r['time'] for r in results), 1),
                            'explanation': 'per function: input relation => output relation, output relation => input relation (so the two solution spaces are equal), and in-place == out-of-place',
                            'errors': [{'fn': r['fn'], 'error': r['error']} for r in errs],
